@@ -65,4 +65,8 @@ def run(ctx):
         "the extract is built through the public add_node(s)/add_edge(s)/set_*_metadata API, whose own correctness is C01/C02",
         "sharing of metadata dict objects between source and extract is not reported (C05 claims independence only for copy())",
     ]
+    with res.guard("general lint pack over the property's files"):
+        from ..lints import check_pack
+
+        check_pack(ctx, res, "C05")
     return res
